@@ -27,6 +27,13 @@ def one(sid, rnd, steps):
     for (req, resp, how) in steps:
         it = s.invoke(size=req, seed=rnd.randrange(1, 10 ** 6))
         s.wait(tag)
+        if how == "repoll":
+            # the runtime asks again before answering: the same invocation, the same (cut) event
+            t2 = s.call("rt", "next", async_=True)
+            s.wait(t2)
+            if resp % 2:
+                t3 = s.call("rt", "next", async_=True)
+                s.wait(t3)
         if how == "error":
             s.call("rt", "error", id="current", size=200, seed=rnd.randrange(1, 10 ** 6), errType="Function.E")
         else:
@@ -51,6 +58,10 @@ def scenarios(ctx):
         for pre in prefixes if not ctx.quick else [prefixes[0]]:
             n += 1
             out.append(one("c14-%03d" % n, rnd, pre + [(size, 9, "ok"), (4, 12, "ok")]))
+    # an oversized event is cut at the limit on every delivery, also when the runtime polls again before answering
+    for size in ([L + 1, L + 4096] if ctx.quick else [L - 1, L, L + 1, L + 2, L + 4096, L + 2 * 1024 * 1024]):
+        n += 1
+        out.append(one("c14-%03d" % n, rnd, [(size, 9 + (n % 2), "repoll"), (size, 8, "ok"), (5, 11, "repoll")]))
     if not ctx.quick:
         # random walks over sizes drawn around the limit (both directions, by 1 .. 64 KiB) and far from it, error
         # responses of every size class (the limit applies to them too), oversize events and oversize responses mixed
